@@ -5,6 +5,7 @@ package cff
 import (
 	"bytes"
 	"errors"
+	"strings"
 
 	"seehuhn.de/go/geom/matrix"
 	"seehuhn.de/go/postscript/type1"
@@ -58,4 +59,44 @@ func VerifH_C18_cffwrite() {
 		verifReach("fault")
 		verifAssert(err != nil, "a failing destination surfaces as an error")
 	}
+}
+
+// VerifH_C13_offsets: whole cff.Font Write -> Read for fonts whose section offsets fall on either side of
+// the DICT integer size classes: the length of the Notice string is varied over a window, so that the
+// String INDEX pushes the charset / CharStrings / Private offsets across 1131|1132 (and, with the extra
+// glyphs, 107|108); the glyph widths are symbolic.  The font must read back with the same strings, glyph
+// count and widths, and a second Write must give the same bytes.
+func VerifH_C13_offsets() {
+	f := verifSmallFont()
+	for i := 2 * verifChoose("extraglyphs", 2); i > 0; i-- { // 2 or 4 glyphs (the nominal width is a mean: power-of-two counts)
+		g := NewGlyph(string(rune('B'+i)), 700)
+		g.MoveTo(0, 0)
+		g.LineTo(float64(10*i), 20)
+		f.Glyphs = append(f.Glyphs, g)
+	}
+	f.Glyphs[1].Width = verifDyadic("w1", 0, 0, 2000)
+	n := verifParam("noticebase", 900) + verifChoose("noticelen", verifParam("noticespan", 300))
+	f.FontInfo.Notice = strings.Repeat("x", n)
+	buf := &bytes.Buffer{}
+	err := f.Write(buf)
+	verifAssert(err == nil, "font written")
+	if err != nil {
+		return
+	}
+	g, err := Read(bytes.NewReader(buf.Bytes()))
+	verifAssert(err == nil, "own output accepted")
+	if err != nil {
+		return
+	}
+	verifReach("read")
+	verifAssert(g.FontInfo.Notice == f.FontInfo.Notice && g.FontInfo.FontName == f.FontInfo.FontName, "strings survive")
+	verifAssert(len(g.Glyphs) == len(f.Glyphs), "glyph count")
+	for i := range f.Glyphs {
+		if i < len(g.Glyphs) {
+			verifAssert(g.Glyphs[i].Width == f.Glyphs[i].Width && g.Glyphs[i].Name == f.Glyphs[i].Name, "glyph widths and names survive")
+		}
+	}
+	buf2 := &bytes.Buffer{}
+	f.Write(buf2)
+	verifAssert(verifSame(buf.Bytes(), buf2.Bytes()), "writing twice gives the same bytes")
 }
